@@ -1038,7 +1038,11 @@ fn c04(s: &mut Search, rng: &mut Rng) {
     while s.time_left() && n < 2_000_000 {
         n += 1;
         if n % 6 == 0 {
-            let req = format!("oracle after_opt symmetry {} crystal {}", crate::gen::gen_cfg_small(rng), crate::gen::gen_state_desc_ext(rng, true, true));
+            let st = crate::gen::gen_state_desc_ext(rng, true, true);
+            if st.contains('!') {
+                continue;
+            }
+            let req = format!("oracle after_opt symmetry {} crystal {}", crate::gen::gen_cfg_small(rng), st);
             s.class("after-optimisation");
             s.run("Groups.mapsOntoItself", &req, "c04_symmetry", "the crystal does not have the symmetry of its group", true);
             continue;
@@ -1046,6 +1050,9 @@ fn c04(s: &mut Search, rng: &mut Rng) {
         let dense = rng.below(2) == 0;
         // also several occupied sites and (for p1 / p2) cells of the two families no built-in group uses
         let st = crate::gen::gen_state_desc_ext(rng, dense, true);
+        if st.contains('!') {
+            continue; // a custom list of operations is not one of the groups the property is about
+        }
         let req = format!("oracle c04_symmetry {}", st);
         s.class(if st.contains("+ ") { "several-sites" } else if st.contains('@') { "fixed-family" } else { "state" });
         s.run("Groups.mapsOntoItself", &req, "c04_symmetry", "the crystal does not have the symmetry of its group", true);
